@@ -284,4 +284,79 @@ theorem closeRun_spec (P : Params) (w : WireOps C) (frames : List Chunk) (wpos :
       simp only [] at hc; rw [this] at hc; cases hc
     | panic m => exact absurd rfl (cp.nopanic m)
 
+/-! ## `poll_write`: a `Pending` is a `Pending` of the carrier -/
+
+/-- Once something has been buffered, the chunk loop reports `Ok`, never `Pending`. -/
+theorem encLoop_total_pos (P : Params) (w : WireOps C) (fuel : Nat) (s : WriteSock C) (pos rem bo total : Nat)
+    (ht : 0 < total) : (encLoop P w fuel s pos rem bo total).2 ≠ .pending := by
+  induction fuel generalizing s pos rem bo total with
+  | zero =>
+    have := (finishWrite_spec s bo total).2.2
+    rw [if_neg (by omega)] at this
+    simp only [encLoop]; rw [this.1]; simp
+  | succ fuel ih =>
+    have hf := (finishWrite_spec s bo total).2.2
+    rw [if_neg (by omega)] at hf
+    unfold encLoop
+    split
+    · rw [hf.1]; simp
+    · split
+      · rw [hf.1]; simp
+      · split
+        · simp
+        · exact ih _ _ _ _ _ (by omega)
+
+/-- `Pending` out of the chunk loop: nothing was buffered because the first chunk does not fit. -/
+theorem encLoop_pending (P : Params) (w : WireOps C) (fuel : Nat) (s : WriteSock C) (pos rem bo total : Nat)
+    (hfuel : rem ≤ fuel) (hm : 1 ≤ P.MAXF) (h : (encLoop P w fuel s pos rem bo total).2 = .pending) :
+    rem = 0 ∨ bo + min rem P.MAXF + (2 + P.TAG) > s.ebuf.size := by
+  cases fuel with
+  | zero => left; omega
+  | succ fuel =>
+    unfold encLoop at h
+    by_cases hrem : rem = 0
+    · exact Or.inl hrem
+    · rw [if_neg hrem] at h
+      by_cases hfit : bo + min rem P.MAXF + (2 + P.TAG) > s.ebuf.size
+      · exact Or.inr hfit
+      · rw [if_neg hfit] at h
+        exfalso
+        split at h
+        · simp at h
+        · exact encLoop_total_pos P w fuel _ _ _ _ _ (by omega) h
+
+/-- **A `Pending` of `poll_write` is a `Pending` of the carrier.** With room for at least one frame (`W ≥ 1`),
+`poll_write` answers `Pending` only if the encrypt buffer could not be drained because the inner `poll_write`
+answered `Pending` in this very call (which registered the waker). -/
+theorem pollWrite_pending_blocked (P : Params) (w : WireOps C) (hc : WConsts P) (hW : 1 ≤ P.W)
+    (s : WriteSock C) (c : WCarrier C) (pos n : Nat) (hinv : WInv P s)
+    (h : (pollWrite P w s c pos n).2.2 = .pending) : (drain (drainFuel s) s c).2.2 = .blocked := by
+  obtain ⟨d1, d2, _, _, _, d6, _, _⟩ := drain_spec P (drainFuel s) s c hinv (Nat.le_refl _)
+  unfold pollWrite at h
+  rcases hd : drain (drainFuel s) s c with ⟨s', c', o⟩
+  rw [hd] at h d1 d2 d6
+  simp only [] at h d1 d2 d6
+  cases o with
+  | blocked => rfl
+  | err e => simp at h
+  | panic m => simp at h
+  | idle =>
+    exfalso
+    simp only [] at h
+    have hidle := d6 rfl
+    unfold encryptStep at h
+    by_cases hn : n = 0
+    · simp [hn] at h
+    · rw [if_neg hn, if_neg (by have := hc.maxf; omega)] at h
+      have hb : bufferOffset s' = 0 := by simp [bufferOffset, hidle]
+      rw [hb] at h
+      rcases encLoop_pending P w n s' pos n 0 0 (Nat.le_refl _) hc.maxf h with h0 | h0
+      · exact hn h0
+      · have hsz : s'.ebuf.size = P.encSize := d1.1
+        have hmf := hc.maxf
+        have : P.M + 2 ≤ P.W * (P.M + 2) := Nat.le_mul_of_pos_left _ hW
+        simp only [Params.encSize, Params.MAXF] at hsz hmf h0 ⊢
+        have : min n (P.M - P.TAG) ≤ P.M - P.TAG := Nat.min_le_right _ _
+        omega
+
 end Litep2pVerif.Noise.Transport
